@@ -3,10 +3,28 @@
   → `w (winding hitEvenOdd hitNonZero)* area <a> dir (pos|neg)*`
   `curved  name tol nsubs (first nseg (L to | Q ctrl to | C ctrl1 ctrl2 to)*)* nq (x y)*`
   → the same token sequence (or `panic` where the flattening's `unwrap` panics)
+  `fillprog:32  rule orientation tol entry nattr nitems item* nq (x y)*` — a program of shape helpers
+  and sub-paths issued to ONE builder object:
+    item = `circle pos cx cy r a*` | `rect pos minx miny maxx maxy a*` | `ellipse pos cx cy rx ry rot a*`
+         | `rrect pos minx miny maxx maxy tl tr bl br a*` | `polygon closed n (x y)* a*`
+         | `sub ncalls (B x y a* | L x y a* | Q cx cy x y a* | C c1 c2 x y a* | E close)*`
+    (`a*` = `nattr` attribute values; a helper hands the same slice to every endpoint it creates);
+    entry = `builder` (`FillTessellator::builder`, the inherent helper methods of `NoAttributes`),
+    `attrs` (`builder_with_attributes(nattr)`), `genericfb` (the `FillBuilder` through the
+    `PathBuilder` trait), `generic` (`NoAttributes<FillBuilder>` through the `PathBuilder` trait:
+    the DEFAULT `add_circle`)
+  → the complete emission sequence of the fill tessellator on the program (format of `sweepc`,
+    Drive/Sweep.lean: every vertex with its sibling edge records — windings, t-ranges, endpoint ids —
+    interpolated attributes, triangles, outcome) from the model of the helpers' expansion
+    (`Model/Tess/FillBuilderShapes.lean`) fed to the modelled queue builder and sweep, then
+    `hit (winding hit)*`: `path_winding_number_at_position` / `hit_test_path` under the rule at every
+    query point on the `Path` built by the same program through `Path::builder()`.
 -/
 import LyonVerif.Drive.Common
+import LyonVerif.Drive.Sweep
 import LyonVerif.Model.Algo.Winding
 import LyonVerif.Model.Algo.WindingCurves
+import LyonVerif.Model.Tess.FillBuilderShapes
 
 namespace Lyon.Drive.C18
 open Lyon Lyon.Drive Lyon.Winding
@@ -76,9 +94,91 @@ def curved [Transc α] [FlatConst α] (v : Array String) : String :=
     unwords (["w"] ++ ws.map (·.getD "") ++ ["area", fx area, "dir"]
       ++ path.map (fun s => if computeWindingC s then "pos" else "neg"))
 
+/-! ### `fillprog` -/
+
+section fillprog
+open Lyon.FillBuilderShapes Lyon.PathShapes Lyon.Path
+variable [Transc α] [FlatConst α] [Lyon.Sweep.Wide α] [ArcConv.Eps α]
+
+def rdAttrs (v : Array String) (nattr i : Nat) : Array α :=
+  ((List.range nattr).map fun k => rd v (i + k)).toArray
+
+/-- the calls of a `sub` item with the attribute values of its endpoints -/
+def rdCalls (v : Array String) (nattr : Nat) : Nat → Nat → Calls α × Array (Array α) → (Calls α × Array (Array α)) × Nat
+  | 0, i, acc => ((acc.1.reverse, acc.2), i)
+  | n+1, i, acc =>
+    match v.getD i "" with
+    | "B" => rdCalls v nattr n (i + 3 + nattr) (.begin (rdP v (i+1)) () :: acc.1, acc.2.push (rdAttrs v nattr (i+3)))
+    | "L" => rdCalls v nattr n (i + 3 + nattr) (.line (rdP v (i+1)) () :: acc.1, acc.2.push (rdAttrs v nattr (i+3)))
+    | "Q" => rdCalls v nattr n (i + 5 + nattr)
+               (.quad (rdP v (i+1)) (rdP v (i+3)) () :: acc.1, acc.2.push (rdAttrs v nattr (i+5)))
+    | "C" => rdCalls v nattr n (i + 7 + nattr)
+               (.cubic (rdP v (i+1)) (rdP v (i+3)) (rdP v (i+5)) () :: acc.1, acc.2.push (rdAttrs v nattr (i+7)))
+    | "E" => rdCalls v nattr n (i + 2) (.end_ (rdNat v (i+1) == 1) :: acc.1, acc.2)
+    | _ => ((acc.1.reverse, acc.2), i)
+
+/-- one item: the item, the attribute values of a `sub` item's endpoints (`none` for a helper: one
+slice for all its endpoints), the helper's slice, the next token index -/
+def rdItem (v : Array String) (nattr i : Nat) : Item α × Option (Array (Array α)) × Array α × Nat :=
+  let pos := rdNat v (i+1) == 1
+  match v.getD i "" with
+  | "circle" => (.circle (rdP v (i+2)) (rd v (i+4)) pos, none, rdAttrs v nattr (i+5), i + 5 + nattr)
+  | "rect" => (.rect (rdP v (i+2)) (rdP v (i+4)) pos, none, rdAttrs v nattr (i+6), i + 6 + nattr)
+  | "ellipse" => (.ellipse (rdP v (i+2)) (rdP v (i+4)) (rd v (i+6)) pos, none, rdAttrs v nattr (i+7), i + 7 + nattr)
+  | "rrect" =>
+    (.rrect (rdP v (i+2)) (rdP v (i+4)) ⟨rd v (i+6), rd v (i+7), rd v (i+8), rd v (i+9)⟩ pos, none,
+      rdAttrs v nattr (i+10), i + 10 + nattr)
+  | "polygon" =>
+    let n := rdNat v (i+2)
+    (.polygon (rdPts v n (i+3)) pos, none, rdAttrs v nattr (i + 3 + 2*n), i + 3 + 2*n + nattr)
+  | _ =>
+    let r := rdCalls (α := α) v nattr (rdNat v (i+1)) (i+2) ([], #[])
+    (.sub r.1.1, some r.1.2, #[], r.2)
+
+def rdItems (v : Array String) (nattr : Nat) :
+    Nat → Nat → List (Item α × Option (Array (Array α)) × Array α) → List (Item α × Option (Array (Array α)) × Array α) × Nat
+  | 0, i, acc => (acc.reverse, i)
+  | n+1, i, acc =>
+    let r := rdItem (α := α) v nattr i
+    rdItems v nattr n r.2.2.2 ((r.1, r.2.1, r.2.2.1) :: acc)
+
+/-- attribute values per endpoint, in call order -/
+def itemValues (own : Bool) (it : Item α × Option (Array (Array α)) × Array α) : Array (Array α) :=
+  match it.2.1 with
+  | some vals => vals
+  | none => Array.replicate (numEndpoints (it.1.calls own)) it.2.2
+
+def fillprog (v : Array String) : String :=
+  let rule : Slab.Rule := if rdNat v 0 == 0 then .evenOdd else .nonZero
+  let horizontal := rdNat v 1 == 1
+  let tol : α := rd v 2
+  let own := v.getD 3 "" != "generic"
+  let nattr := rdNat v 4
+  let (items, j) := rdItems (α := α) v nattr (rdNat v 5) 6 []
+  let prog := items.map (·.1)
+  let values : Array (Array α) := items.foldl (fun a it => a ++ itemValues own it) #[]
+  let r := SweepCurves.tessellate .builder rule horizontal tol true (toCmds (programCalls own prog))
+  let fE : Lyon.Sweep.Emit α → String := fun e =>
+    match e with
+    | .vertex _ recs =>
+      if nattr > 0 then
+        unwords ([Lyon.Drive.Sweep.fEmit e, "a"] ++ (SweepCurves.vertexAttrs r.2 values nattr recs).map fx)
+      else Lyon.Drive.Sweep.fEmit e
+    | .tri _ _ _ => Lyon.Drive.Sweep.fEmit e
+  let nq := rdNat v j
+  let qs : List (P α) := rdPts v nq (j+1)
+  let path := toSubs (programCalls false prog)
+  let ws := qs.map (fun q => (windingAtC q tol path).map (fun w =>
+    toString w ++ " " ++ fb (hitRule (rdNat v 0 == 0) w)))
+  if ws.any Option.isNone then "panic"
+  else unwords ([Lyon.Drive.Sweep.fResultWith fE r.1, "hit"] ++ ws.map (·.getD ""))
+
+end fillprog
+
 def families : List Family := [
   ⟨"hit", hit (α := Float32), hit (α := Float)⟩,
-  ⟨"curved", curved (α := Float32), curved (α := Float)⟩ ]
+  ⟨"curved", curved (α := Float32), curved (α := Float)⟩,
+  ⟨"fillprog", fillprog (α := Float32), fillprog (α := Float32)⟩ ]
 
 end Lyon.Drive.C18
 
